@@ -171,6 +171,16 @@ func (c *Code) PrepareCharSetASCIIBitmaps() {
 	}
 }
 
+// HasOpcode reports whether the program contains the given operation.
+func (c *Code) HasOpcode(op InstOp) bool {
+	for pos := 0; pos < len(c.Codes); pos += opcodeSize(InstOp(c.Codes[pos])) {
+		if InstOp(c.Codes[pos])&Mask == op {
+			return true
+		}
+	}
+	return false
+}
+
 func opcodeBacktracks(op InstOp) bool {
 	op &= Mask
 
